@@ -638,3 +638,7 @@ mutant("rmr-eval-before-parse-check",
        [(MAIN, "    let ast = parse_prog(&src)?;\n\n    eval_script(cur_script_dir, cur_rel_script_path, &ast)",
                "    let ast = parse_prog(&src);\n    let fallback = Prog::Body{stmts: vec![]};\n    eval_script(cur_script_dir.clone(), cur_rel_script_path, ast.as_ref().unwrap_or(&fallback))?;\n    ast.map(|_| ())")],
        [("C03", "R03.1")], base=RMR, note="mainrun refactor + evaluation no longer behind the successful parse")
+
+mutant("c15-len-counts-chars",
+       [("src/builtins/type_functions.rs", "    let n: i64 = s.len().try_into()", "    let n: i64 = s.chars().count().try_into()")],
+       [("C15", "R15.2")], note="`->len()` reports a character count")
